@@ -104,6 +104,7 @@ type aluTr struct {
 	// optional extensions used by the lane-body translator (lanebody.go); nil for the scalar handlers
 	callHook func(e *ast.CallExpr, env map[string]string) (string, bool)
 	selHook  func(e *ast.SelectorExpr, env map[string]string) (string, bool)
+	exprHook func(e ast.Expr, env map[string]string) (string, bool) // sees every expression first (floats)
 }
 
 func (t *aluTr) fail(n ast.Node, f string, a ...any) string {
@@ -163,6 +164,11 @@ func aluConv(src string, sw int, ssigned bool, dw int) string {
 }
 
 func (t *aluTr) expr(e ast.Expr, env map[string]string) string {
+	if t.exprHook != nil {
+		if s, ok := t.exprHook(e, env); ok {
+			return s
+		}
+	}
 	if tv, ok := t.info.Types[e]; ok && tv.Value != nil {
 		w, _, ok := basicWS(tv.Type)
 		if !ok {
